@@ -124,6 +124,38 @@ def record_validate(v, wd, tier, prop):
     log(f"[{prop}] Trace_Runtime: {acc} recorded random programs accepted")
 
 
+def apalache_time(v, wd):
+    """Apalache (symbolic): the laws of Time.tla, plus the triangle inequality and translation invariance the additive
+    embeddings rest on, for arbitrary naturals (TLC checks 0..N). A counterexample is a violation of the specification,
+    anything else (time-out, tool trouble) is only noted."""
+    import shutil
+    import subprocess
+    import time
+    ad = os.path.join(wd, "apalache_time")
+    shutil.rmtree(ad, ignore_errors=True)
+    os.makedirs(ad)
+    shutil.copy(os.path.join(vlib.SPECS, "Ind_Time.tla"), ad)
+    t0 = time.time()
+    try:
+        p = subprocess.run(["timeout", "300", "apalache-mc", "check", f"--out-dir={ad}/out", "--init=IInit", "--next=INext", "--inv=ILaws",
+                            "--length=0", "Ind_Time.tla"], cwd=ad, capture_output=True, text=True)
+        out = p.stdout + p.stderr
+    except OSError as e:
+        out = str(e)
+    if "EXITCODE: OK" in out and "NoError" in out:
+        res = "holds"
+    elif "EXITCODE: ERROR (12)" in out or "outcome is: Error" in out:
+        res = "counterexample"
+    else:
+        res = "inconclusive"
+    log(f"[apalache] Time laws over unbounded naturals: {res} ({time.time() - t0:.0f}s)")
+    v.cov["apalache_time_laws"] = {"module": "Ind_Time", "invariant": "ILaws (11 laws of SimTime arithmetic)", "result": res,
+                                   "bound": "none: a, b, d arbitrary naturals"}
+    if res == "counterexample":
+        v.add_violation("Apalache: a law of SimTime arithmetic (Ind_Time.ILaws) fails for some naturals (counterexample under work/<id>/apalache_time)",
+                        {"apalache": res}, {"suite": "spec", "field": "apalache_time"})
+
+
 def time_cases(v, wd, tier):
     """SimTime arithmetic (Time.tla): the case table evaluated by TLC, compared with des::time::SimTime under additive embeddings."""
     n = 4 if tier == "quick" else 7
@@ -133,6 +165,7 @@ def time_cases(v, wd, tier):
     if g.violation:
         v.spec_violation("Time", g)
         return
+    apalache_time(v, wd)
     outs = vlib.run_vh_parallel([["rt", "time", out]])
     tot = vlib.collect(v, outs, "rt", "evaluating SimTime arithmetic")
     v.cov["traces_validated_against_impl"] += int(tot.get("replays", 0))
